@@ -235,3 +235,31 @@ def exceptional_exit(run, fs, e, cpre, rep):
             return
     run.oblige(f"{key}/no_exception/{e.exc}", False, kind='no_exception', clause='no_exception:' + e.exc,
                function=key, detail=f"{e.exc} can escape ({e.info}) at line {run.cur_line}")
+
+
+def lemma_obligations(name, body, opts=None):
+    """explore the paths of a spec-level lemma (ghost code over contracts); returns its obligations"""
+    fs = spec.FuncSpec(name, None, kind='function')
+    ex = Explorer()
+    obls = []
+    while True:
+        ex.start()
+        sym.reset_fresh()
+        run = Run(fs, None, None, ex, opts or Options())
+        try:
+            body(run)
+        except PathEnd:
+            pass
+        obls += run.obligations
+        if not ex.backtrack():
+            break
+    return obls
+
+
+def fresh_object(run, clsname, base, assume_inv=True):
+    o = TObj(clsname).fresh(base)
+    run.pc += run._wf_obj(o)
+    if assume_inv:
+        for cname, f in o.spec().all_invariants().items():
+            run.assume(_conj(f(ObjView(o))))
+    return o
